@@ -77,6 +77,7 @@ def sh(cmd, timeout=None, mem_gb=None, env=None, cwd=None):
     t0 = time.time()
     p = subprocess.Popen(cmd, stdout=subprocess.PIPE, stderr=subprocess.PIPE, env=env,
                          cwd=cwd, preexec_fn=pre)
+    _children.add(p.pid)
     try:
         out, err = p.communicate(timeout=timeout)
         to = False
@@ -87,8 +88,33 @@ def sh(cmd, timeout=None, mem_gb=None, env=None, cwd=None):
             pass
         out, err = p.communicate()
         to = True
+    _children.discard(p.pid)
     return p.returncode, out.decode("utf-8", "replace"), err.decode("utf-8", "replace"), \
         time.time() - t0, to
+
+
+# every child runs in its own session (so that a timeout can kill the solver processes it spawned); when the check itself
+# is terminated, the sessions still alive are killed as well, otherwise SMT solvers keep running as orphans
+_children = set()
+
+
+def _kill_children(*_a):
+    for pid in list(_children):
+        try:
+            os.killpg(pid, signal.SIGKILL)
+        except Exception:
+            pass
+    if _a:
+        os._exit(143)
+
+
+import atexit
+atexit.register(_kill_children)
+for _sig in (signal.SIGTERM, signal.SIGINT, signal.SIGHUP):
+    try:
+        signal.signal(_sig, _kill_children)
+    except Exception:
+        pass
 
 
 class Infra(Exception):
@@ -513,6 +539,7 @@ def run_cbmc(g, binary, env, _split=False):
                                  preexec_fn=lambda: (os.setsid(), resource.setrlimit(
                                      resource.RLIMIT_AS, (int(g["mem_gb"] * (1 << 30)),) * 2)))
             procs[b] = p
+            _children.add(p.pid)
             try:
                 out, err = p.communicate(timeout=g["timeout"])
                 to = False
